@@ -21,10 +21,10 @@ RULE = ("reduced-form indexed grammars (<=4 non-terminals, <=2 indices, <=8 rule
         "Non-trivial: >=3 rules incl. a production or duplication rule; distinct = hash of the rule set.")
 ASSUMPTIONS = ["oracle step limit: a case on which the reference fixpoint gives up is discarded, never judged",
                "the library's marking is exponential on some duplication-heavy grammars: a case that exceeds the "
-               "wall-clock watchdog is counted inconclusive (tolerated up to 4 % of the cases), never judged"]
+               "wall-clock watchdog is counted inconclusive (tolerated up to 15 % of the cases; the count is in the evidence), never judged"]
 TIERS = {
-    "quick": {"workers": 8, "random": 60, "products": 6, "word_products": 40, "case_timeout": 12, "inconclusive_tolerance": 0.04},
-    "thorough": {"workers": 16, "random": 500, "products": 40, "word_products": 300, "case_timeout": 60, "inconclusive_tolerance": 0.02, "pytest": True, "exhaustive": True, "hard_timeout": 3300},
+    "quick": {"workers": 8, "random": 60, "products": 6, "word_products": 40, "case_timeout": 12, "inconclusive_tolerance": 0.15},
+    "thorough": {"workers": 16, "random": 500, "products": 40, "word_products": 300, "case_timeout": 60, "inconclusive_tolerance": 0.10, "pytest": True, "exhaustive": True, "hard_timeout": 3300},
 }
 MIN = {"quick": {"C17.IndexedGrammar.is_empty": 10000, "C17.IndexedGrammar.remove_useless_rules": 100,
                  "C17.IndexedGrammar.intersection": 30, "C17.Rules.__init__": 10000},
